@@ -141,3 +141,45 @@ package web
 //@   site SaveSessionIdentity requires[C13] onlyVerified: #exchangeOK && #verifyOK && userName != "" && #httpErrors == 0 && reqId(r).userName == userName
 //@   site (*github.com/coreos/go-oidc/v3/oidc.IDTokenVerifier).Verify requires[C13] afterExchange: #exchangeOK && #httpErrors == 0
 //@   nopanic[C10]
+
+// ---------------------------------------------------------------- connection files (C12) and token info (C15)
+
+//@ define handlerInv(h) = h != nil && len(h.hosts) >= 1 && h.gatewayAddress != nil && h.paaTokenGenerator != nil && (h.hostSelection == "signed" ==> h.queryInfo != nil) && (h.enableUserToken ==> h.userTokenGenerator != nil)
+//@ define listed(h, x) = (exists k :: 0 <= k && k < len(h.hosts) && h.hosts[k] == x)
+
+//@ func (*Handler).selectRandomHost
+//@   requires[C10] hosts: h != nil && len(h.hosts) >= 1
+//@   ensures[C12] configured: listed(h, result)
+//@   nopanic[C10]
+
+//@ func (*Handler).getHost
+//@   requires[C10] wf: handlerInv(h) && u != nil
+//@   assigns #lastQuery, #queryTok, #queryIssuer
+//@   loop 0 invariant signedScan: forall j :: 0 <= j && j <= rangeindex ==> h.hosts[j] != host
+//@   loop 1 invariant unsignedScan: forall j :: 0 <= j && j <= rangeindex ==> h.hosts[j] != hosts[0]
+//@   ensures[C12] roundrobin: result1 == nil && h.hostSelection != "signed" && h.hostSelection != "unsigned" && h.hostSelection != "any" ==> listed(h, result0)
+//@   ensures[C12] signed: result1 == nil && h.hostSelection == "signed" ==> listed(h, result0) && mapHas(#lastQuery, "host") && #queryTok == #lastQuery["host"][0] && #queryIssuer == h.queryTokenIssuer
+//@   ensures[C12] unsigned: result1 == nil && h.hostSelection == "unsigned" ==> listed(h, result0) && mapHas(#lastQuery, "host") && result0 == #lastQuery["host"][0]
+//@   ensures[C12] any: result1 == nil && h.hostSelection == "any" ==> mapHas(#lastQuery, "host") && result0 == #lastQuery["host"][0]
+//@   site web.QueryInfoFunc requires[C12] tokenAndIssuer: arg1 == hosts[0] && arg2 == h.queryTokenIssuer
+//@   nopanic[C10]
+
+//@ func (*Handler).HandleDownload
+//@   requires[C10] wf: handlerInv(h) && reqHasId(r)
+//@   requires start: freshResponse() && !#served
+//@   assigns *
+//@   ensures[C12] loggedInOnly: #served ==> reqId(r).authenticated && #httpErrors == 0
+//@   ensures[C12] noTokenForStrangers: !reqId(r).authenticated ==> #paaCalls == old(#paaCalls) && !#served
+//@   site web.TokenGeneratorFunc requires[C12] claims: reqId(r).authenticated && arg2 == host && arg1 == user && (!h.rdpOpts.SplitUserDomain ==> user == reqId(r).userName)
+//@   site net/http.ServeContent requires[C12] settings: reqId(r).authenticated && #httpErrors == 0 && d != nil && d.Settings.FullAddress == host && #paaHost == host && d.Settings.GatewayHostname == h.gatewayAddress.Host && d.Settings.GatewayAccessToken == token && #paaToken == token && d.Settings.GatewayCredentialsSource == 5 && d.Settings.GatewayCredentialMethod == 1 && d.Settings.GatewayUsageMethod == 1
+//@   nopanic[C10]
+
+//@ func TokenInfo
+//@   requires start: freshResponse() && !#encodedJSON
+//@   assigns *
+//@   ensures[C15] method: r.Method != "GET" ==> #status == 405 && !#encodedJSON
+//@   ensures[C15] missing: r.Method == "GET" && !mapHas(#lastQuery, "access_token") ==> #status == 400 && !#encodedJSON
+//@   ensures[C15] forbidden: #status != 405 && #status != 400 && !#validatedOK ==> #status == 403 && !#encodedJSON
+//@   ensures[C15] claimsOnlyIfValid: #encodedJSON ==> #validatedOK && #validatedIssuer == "rdpgw"
+//@   site (*encoding/json.Encoder).Encode requires[C15] verified: #validatedOK && #status == 0 && dyn(arg1, jwt.Claims) == info
+//@   nopanic[C10]
